@@ -34,6 +34,17 @@ pub fn gen(tier: Tier, rng: &mut Rng) -> Vec<Sx> {
         let cfg = Sx::l(vec![Sx::b(rng.chance(5, 6)), Sx::n(rng.range(1, 16)), Sx::n(rng.range(1, 4))]);
         v.push(Sx::l(vec![cfg, Sx::l(kvs), Sx::l(rules), Sx::n(if tier == Tier::Thorough { 10 } else { 6 })]));
     }
+    // contention: ONE salience level with more rules than threads and as many threads as possible, cheap conditions - all workers
+    // come back for more work at about the same time while fewer rules than workers are left
+    let nc = if tier == Tier::Thorough { 1500 } else { 250 };
+    for _ in 0..nc {
+        let threads = *rng.pick(&[4u64, 8, 12, 16]);
+        let nr = threads + rng.range(1, threads.min(8));
+        let rules: Vec<Sx> = (0..nr).map(|i| Sx::l(vec![Sx::i(i as i64), Sx::i(0), Sx::b(true), gen_cond(rng, 0)])).collect();
+        let kvs: Vec<Sx> = (0..4).map(|k| Sx::l(vec![Sx::i(k), Sx::i(rng.below(6) as i64)])).collect();
+        let cfg = Sx::l(vec![Sx::b(true), Sx::n(threads), Sx::n(1)]);
+        v.push(Sx::l(vec![cfg, Sx::l(kvs), Sx::l(rules), Sx::n(if tier == Tier::Thorough { 10 } else { 6 })]));
+    }
     v
 }
 
